@@ -245,8 +245,10 @@ PROPS = {
                    'restores them exactly, LIFO (lemma over the two contracts).',
         level_note='Assumed: contracts of Bitstr::{start,end,len,seek,substr,read,...} (proved in units/bitstr.rs), of push/pop/get_var/set_var (units/state.rs), of the tag words '
                    '(units/cell.rs), rpds map laws (lookup after insert / in empty map); the numeric value of the decoded bits is the Kani-decided C05. Modest sizes: input end < usize::MAX. '
-                   'NOT decided: magic (pattern closure), find (memmem), nulbytestr/cstr (iter8 in a for loop), dump.',
-        not_decided=['magic', 'find', 'nulbytestr / cstr', 'dump / dump-at'],
+                   'magic, find (over a stand-in of memmem::find), nulbytestr and cstr (the bytes before the first zero byte, one Latin-1 character each) are under contract too, '
+                   'and every parsing word of the word table is checked to be bound to the function with the stated contract (Rword + same_as). '
+                   'NOT decided: dump / dump-at (formatting), bitstr-and/or/xor (zip + cycle adapters).',
+        not_decided=['dump / dump-at', 'bitstr-and / bitstr-or / bitstr-xor'],
     ),
     'C07': dict(
         title='Binary construction is the inverse of binary parsing',
